@@ -307,6 +307,33 @@ struct VarRunner {
             o.b(*want == 4242);
             *want = before;
         }
+        {
+            // get_if of a null pointer is a null pointer ([variant.get]); visit of no variant at all calls f();
+            // etl::visit also accepts a NON-variant argument and hands it through as a one-alternative operand
+            // (std::visit does not: the reference leg calls the visitor with the active alternative and the value);
+            // etl::swap / std::swap of two arrays of variants swaps element-wise (the array overload of swap.hpp)
+            V* np        = nullptr;
+            V const* cnp = nullptr;
+            o.tok("gn").b(Lib::template get_if<0>(np) == nullptr).b(Lib::template get_if<N - 1>(cnp) == nullptr);
+            o.num(Lib::visit([] { return 7; }));
+            auto fn = [&](auto const& l, long k, auto const& r) {
+                o.tok("vn").num(tid<std::remove_cvref_t<decltype(l)>>).num(enc(l)).num(k);
+                o.num(tid<std::remove_cvref_t<decltype(r)>>).num(enc(r));
+            };
+            if constexpr (Lib::is_etl) {
+                etl::visit(fn, std::as_const(a), 7L, std::as_const(b));
+            } else {
+                std::visit([&](auto const& l, auto const& r) { fn(l, 7L, r); }, std::as_const(a), std::as_const(b));
+            }
+            V arr1[2] = {a, b};
+            V arr2[2] = {b, b};
+            Lib::swap(arr1, arr2);
+            o.tok("sa");
+            state(o, arr1[0]);
+            state(o, arr1[1]);
+            state(o, arr2[0]);
+            state(o, arr2[1]);
+        }
         Lib::visit(
             [&](auto const& l, auto const& r) {
                 o.tok("v2").num(tid<std::remove_cvref_t<decltype(l)>>).num(enc(l));
